@@ -597,9 +597,14 @@ package gedcom
 // level d. The invariant "open" says the stack agrees with it.
 //@   ghost lastAt map[int]int
 //@   ghost nAtt int = 0
-//@   oncall Document.AddNode do lastAt[0] = data(arg1); nAtt = nAtt + 1
+//@   ghost lastLevel int = 0 - 1
+//@   oncall Document.AddNode do lastAt[0] = data(arg1); nAtt = nAtt + 1; lastLevel = 0
 //@   oncall Document.AddNode check root: indent == 0 && arg0 == document && arg1 == node
-//@   oncall Node.AddNode do lastAt[indent] = data(arg1); nAtt = nAtt + 1
+//@   oncall Node.AddNode do lastAt[indent] = data(arg1); nAtt = nAtt + 1; lastLevel = indent
+// the stack holds exactly the open nodes: one per level up to the level of the
+// last accepted line (a line deeper than that is over-deep, whatever nodes of
+// that depth were seen earlier)
+//@   loop 1 invariant shape: len(indents) == lastLevel + 1
 //@   oncall Node.AddNode check parent: indent >= 1 && data(arg0) == lastAt[indent-1] && arg1 == node
 //@   loop 1 invariant open: forall(d, 0, len(indents), data(indents[d]) == lastAt[d])
 //@   loop 1 iter once: nAtt - old(nAtt) == ite(line != "" && isnil(err), 1, 0)
